@@ -11,7 +11,9 @@ import (
 // State is a product of a list of substitutions and a variable counter.
 type State struct {
 	substitutions map[Var]any
-	vars          map[Var]struct{}
+	// vars maps the address of every variable to its placeholder. Holding on to the placeholder keeps it alive,
+	// so that the garbage collector cannot hand its address to a value that is allocated later.
+	vars map[Var]any
 
 	names       map[Var]string
 	varCreators []VarCreator
@@ -26,7 +28,7 @@ func NewState(varCreators ...VarCreator) *State {
 	return &State{
 		varCreators:   varCreators,
 		substitutions: make(map[Var]any),
-		vars:          make(map[Var]struct{}),
+		vars:          make(map[Var]any),
 		names:         make(map[Var]string),
 	}
 }
@@ -70,7 +72,7 @@ func newVarWithName[A any](s *State, name string) (*State, A) {
 	vvalue := newVarValue[A](s, name)
 	vvar := Var(reflect.ValueOf(vvalue).Pointer())
 	res.names[vvar] = name
-	res.vars[vvar] = struct{}{}
+	res.vars[vvar] = vvalue
 	return res, vvalue
 }
 
